@@ -3,8 +3,8 @@ invariants; fallback-centred family: every fallback kind/condition set over inne
 results, handled/unhandled errors, ExceededError, ErrOpen, ErrFull, rate-limit errors."""
 import vlib, seq
 
-FBS = ["fbR", "fbE", "fbH", "fbX", "fbO"]
-INNER1 = ["rp1", "rpH", "rpL", "cbA", "bh2p", "rl2", "cK", "to", "hgR", "fbH"]
+FBS = ["fbR", "fbE", "fbH", "fbX", "fbO", "fbHE", "fbRR", "fbZ"]
+INNER1 = ["rp1", "rp0", "rpH", "rpL", "cbA", "bh2p", "rl2", "cK", "to", "hgR", "fbH"]
 
 
 def accept(m):
